@@ -206,19 +206,19 @@ theorem builtin_bridge (F : Facts) (hds : F.doubleStar = ['*', '*']) (root : Lis
   rfl
 
 /-- ... and therefore the compiled matcher accepts exactly what `structMatch` accepts. -/
-theorem builtin_bridge_run (F : Facts) (hds : F.doubleStar = ['*', '*']) (root : List Name) (segs : List Seg)
+theorem builtin_bridge_run (F : Facts) (hds : F.doubleStar = ['*', '*']) (o : MOpts) (root : List Name) (segs : List Seg)
     (gr : gpath root = true) (hs : segs ≠ []) (hnd : hasDstar segs = false)
     (hc : (flattenSegs (root.map litSeg ++ segs)).all canonItem = true)
     (hclean : cleanPat (renderSegs segs) = true) (hns : containsSub ['*', '*'] (renderSegs segs) = false) (n : Name) :
-    (patternToMatcher F (nameOf root) (renderSegs segs)).map (·.run n) = some (structMatch root segs n) := by
+    (patternToMatcher F (nameOf root) (renderSegs segs)).map (·.run n) = some (structMatch o root segs n) := by
   rw [builtin_bridge F hds root segs gr hs hc hclean hns]
   simp [Matcher.run, structMatch, hnd]
 
 /-- The same for the file-name-only reading of an exclude (`patternToMatcher("", excl)`). -/
-theorem builtin_bridge_rel (F : Facts) (hds : F.doubleStar = ['*', '*']) (segs : List Seg) (hnd : hasDstar segs = false)
+theorem builtin_bridge_rel (F : Facts) (hds : F.doubleStar = ['*', '*']) (o : MOpts) (segs : List Seg) (hnd : hasDstar segs = false)
     (hc : (flattenSegs segs).all canonItem = true)
     (hclean : cleanPat (renderSegs segs) = true) (hns : containsSub ['*', '*'] (renderSegs segs) = false) (n : Name) :
-    (patternToMatcher F [] (renderSegs segs)).map (·.run n) = some (structMatch [] segs n) := by
+    (patternToMatcher F [] (renderSegs segs)).map (·.run n) = some (structMatch o [] segs n) := by
   unfold patternToMatcher
   simp only [hclean, Bool.not_true, Bool.false_eq_true, if_false, hds, hns, Bool.not_false, if_true, List.isEmpty_nil,
     Bool.true_or]
